@@ -7,6 +7,8 @@ import (
 	stdjson "encoding/json"
 	"errors"
 	"fmt"
+	"strings"
+	"time"
 
 	"github.com/go-json-experiment/json"
 	"github.com/go-json-experiment/json/jsontext"
@@ -70,7 +72,7 @@ func (w *FaultW) Write(p []byte) (int, error) {
 // set through every writer path.
 type VCase struct {
 	Lean    bool     `json:"lean,omitempty"`
-	Top     string   `json:"top,omitempty"` // "" struct | "ptr" | "recs" (its Arr as top-level slice) | "map" (its Map)
+	Top     string   `json:"top,omitempty"` // "" struct | "ptr" | "recs" (its Arr as top-level slice) | "map" (its Map) | a top-level leaf: bytes, time, text, int, float, str (sized by Val.Pad)
 	Val     RecD     `json:"val"`
 	Opts    c06.Opts `json:"opts"`
 	Repeat  int      `json:"repeat,omitempty"`  // top-level values written through one Encoder (default 1)
@@ -78,7 +80,35 @@ type VCase struct {
 	Faults  []Fault  `json:"faults,omitempty"`  // schedule for MarshalWrite over a faulting writer
 }
 
+// leafText is a top-level value written through MarshalText.
+type leafText string
+
+func (l leafText) MarshalText() ([]byte, error) { return []byte(l), nil }
+
+func leafTop(top string) bool {
+	switch top {
+	case "bytes", "time", "text", "int", "float", "str":
+		return true
+	}
+	return false
+}
+
 func (c VCase) value(st *stats) any {
+	// top-level leaves: their completion is the only event that can trigger the flush
+	switch n := max(c.Val.Pad, 0); c.Top {
+	case "bytes":
+		return bytes.Repeat([]byte{0xAB}, n%3000+1)
+	case "time":
+		return time.Unix(1700000000+int64(n), 5).UTC()
+	case "text":
+		return leafText("t" + strings.Repeat("x", n%50))
+	case "int":
+		return int64(n) - 7
+	case "float":
+		return float64(n) + 0.5
+	case "str":
+		return strings.Repeat("s", n%200)
+	}
 	if c.Lean {
 		v := c.Val.lean(st, 1)
 		switch c.Top {
